@@ -405,6 +405,39 @@ def run(tier, replay=None):
                               {**case, "cache_off_vs_on_equal": bool(np.array_equal(out_[False][0], out_[True][0])),
                                "cache_off_vs_CallingMCMC_equal": bool(np.array_equal(out_[False][0], fit.genotypes[0]))}, "C09/calling/cache-trajectory")
 
+            # one model object fitted to a second sample (other reads, same haplotypes, same seed and initial state): what it
+            # carries must be that sample's likelihoods, and the run must be the run of a new object
+            truth2 = [list(r.choice(haps)) for _ in range(ploidy)]
+            reads2, counts2 = G.gen_reads(r, [2] * nb, r.randint(2, 8), haps=truth2, gap=0.2, style="encoded")
+            try:
+                mk = lambda: CallingMCMC(ploidy=ploidy, haplotypes=harr, frequencies=freqs, inbreeding=F, steps=60, chains=2,  # noqa: E731
+                                         random_seed=sd, step_type="Gibbs" if st == 0 else "Metropolis-Hastings")
+                model = mk()
+                model.fit(reads, read_counts=counts, initial=g0)
+                again = model.fit(reads2, read_counts=counts2, initial=g0)
+                alone = mk().fit(reads2, read_counts=counts2, initial=g0)
+            except Exception as e:   # noqa: BLE001
+                chk.violation(f"the call sampler raised {type(e).__name__} on a valid input (second fit of one object)",
+                              {**case, "error": repr(e)[:300]}, "C09/calling/raises")
+                continue
+            chk.count("call-sampler:one-object-fitted-to-two-samples")
+            case2 = {**case, "read_counts_second_sample": counts2.tolist()}
+            for c in range(again.genotypes.shape[0]):
+                bad = next((s_ for s_ in range(again.genotypes.shape[1]) if not C.close_log(
+                    float(again.llks[c][s_]), float(lla(reads2, counts2, harr, np.asarray(again.genotypes[c][s_], dtype=np.int64)))))
+                    , None)
+                if bad is not None:
+                    chk.violation("second fit of one CallingMCMC object: a likelihood in the trace is not the likelihood of that genotype "
+                                  "for the reads being fitted",
+                                  {**case2, "chain": c, "step": bad, "alleles": again.genotypes[c][bad].tolist(),
+                                   "carried": float(again.llks[c][bad]),
+                                   "recomputed": float(lla(reads2, counts2, harr, np.asarray(again.genotypes[c][bad], dtype=np.int64)))},
+                                  "C09/calling/trace-llk")
+                    break
+            if not np.array_equal(again.genotypes, alone.genotypes):
+                chk.violation("the second fit of one CallingMCMC object differs from the fit of a new object (same reads, seed, initial state)",
+                              case2, "C09/calling/cache-trajectory")
+
     # ------------------------------------------------------------------ (ii-b) dict caches of the call / call-pedigree wrappers over whole genotype spaces
     import itertools
     from numba import types
